@@ -60,6 +60,8 @@ def check(m, culture, layout, d, q, st, en, ref, ctx, second=None):
             mech = 'date-unresolved'
         elif (r[0].start, r[0].end) != (st, en):
             mech = 'date-wrong-span'
+            if culture == 'zh-cn' and layout == 'yyyy年mm月dd日' and d.day < 10 and (r[0].start, r[0].end) == (st, en - 1):
+                mech = 'zh-zero-padded-day-span-stops-before-the-day-character'      # known-finding classifier
         elif len(dtlib.vals(r[0])) != 1:
             mech = 'date-not-single-valued'
         else:
@@ -70,6 +72,13 @@ def check(m, culture, layout, d, q, st, en, ref, ctx, second=None):
         ctx.fail(mech, where, key, case, exp, {'entities': obs, 'swallowed': lib.take_swallowed()})
         return
     if second is not None:
+        # the public helper with the culture code in its BCP-47 spelling (fr-FR): same entities as the model asked directly
+        from recognizers_date_time import recognize_datetime
+        r4 = recognize_datetime(q, culture[:3] + culture[3:].upper(), reference=ref)
+        ctx.event('public_helper_cased_culture_runs')
+        if dtlib.view(r4) != obs:
+            ctx.fail('date-depends-on-letter-case-of-culture-code', where, key, case, obs, dtlib.view(r4))
+            return
         r2 = m.parse(q, second)
         with dtlib_vclock(dt.datetime(1971, 2, 4, 3, 0)) as reads:
             r3 = m.parse(q, ref)
